@@ -599,7 +599,7 @@ class Interp:
     rule: equal shapes, or a scalar operand).
     """
 
-    def __init__(self, decls: Decls, alg, extra_diag_zero=True):
+    def __init__(self, decls: Decls, alg, mpars=None):
         self.d = decls
         self.a = alg
         self.mpars = {
@@ -607,6 +607,8 @@ class Interp:
             for d in decls.decls
             if d["k"] == "mpar"
         }
+        if mpars:
+            self.mpars.update({k: np.asarray(v, dtype=float) for k, v in mpars.items()})
 
     # -- scalars -----------------------------------------------------------
     def S(self, n):
@@ -939,24 +941,24 @@ class ShapeError(Exception):
 # ---------------------------------------------------------------------------
 
 
-def ref_value(decls, node, point, params=None, track=None):
+def ref_value(decls, node, point, params=None, track=None, mpars=None):
     d = decls if isinstance(decls, Decls) else Decls(decls)
     p = d.param_values()
     if params:
         p.update(params)
     alg = FloatAlg(point, p, track)
     with np.errstate(all="ignore"):
-        return float(Interp(d, alg).S(node)), alg.t
+        return float(Interp(d, alg, mpars).S(node)), alg.t
 
 
-def ref_jet(decls, node, names, point, order=1, params=None, track=None):
+def ref_jet(decls, node, names, point, order=1, params=None, track=None, mpars=None):
     d = decls if isinstance(decls, Decls) else Decls(decls)
     p = d.param_values()
     if params:
         p.update(params)
     alg = JetAlg(order, names, point, p, track)
     with np.errstate(all="ignore"):
-        j = Interp(d, alg).S(node)
+        j = Interp(d, alg, mpars).S(node)
     return j, alg.t
 
 
